@@ -139,11 +139,13 @@ Lemma st_update_refuses_size s name rowid cols vals off t sch ls pg c m bs :
   find (fun lc => N.eqb (lc_key (snd lc)) rowid && negb (lc_deleted (snd lc)))
        (flat_map (fun l => map (fun c => (t_off l, c)) (leaf_cells l)) ls) = Some (pg, c) ->
   decode_tuple sch (lc_val c) [] = Ok m ->
+  cols_err (map fd_name sch) cols [] = None ->     (* the SET list names columns of the table, each once *)
   encode_tuple sch (zip_set cols vals m) = Ok bs ->
   (MV < length bs)%nat ->
   st_update s name rowid cols vals = (s, Err ERowTooLarge).
 Proof.
-  intros Hsys Ho Ht Hs Hl Hf Hd He Hlen. unfold st_update. rewrite Hsys.
+  intros Hsys Ho Ht Hs Hl Hf Hd Hce He Hlen. unfold st_update, upd_bad_cols. rewrite Hsys.
+  rewrite Ho. cbn [bind]. rewrite Ht. cbn [bind]. rewrite Hs, Hce. unfold st_update0. rewrite Hsys.
   rewrite Ho. cbn [bind]. rewrite Ht. cbn [bind]. rewrite Hs. cbn [bind]. rewrite Hl. cbn [of_tres bind].
   rewrite Hf, Hd. cbn [bind]. rewrite He.
   destruct (Nat.ltb_spec MV (length bs)); [reflexivity | lia].
